@@ -334,10 +334,18 @@ func resolveUpdate(w *World, op Op, st Stored) *Request {
 	case "unknownlog":
 		r.Known = false
 		r.LogID = LogID(fmt.Sprintf("unknown-%d", op.MV))
-		if op.MV%3 == 1 {
+		switch op.MV % 5 {
+		case 1:
 			r.LogID = ld.ID[:len(ld.ID)-1] // near miss
-		} else if op.MV%3 == 2 {
+		case 2:
 			r.LogID = ""
+		case 3:
+			r.LogID = strings.ToUpper(ld.ID) // the same hex digits in another case are another ID
+			if r.LogID == ld.ID {
+				r.LogID = ld.ID + "0"
+			}
+		case 4:
+			r.LogID = " " + ld.ID
 		}
 	case "prime_other":
 		if ol := w.otherKeyLog(ld); ol != nil {
